@@ -9,6 +9,7 @@ import (
 )
 
 // probe: `bmformwm probe graph '<graph case json>' out.pdf [validate]` writes the raw outline graph document (C36 reproduction aid).
+//        `bmformwm probe form create.json out.pdf export.json [fill.json out2.pdf export2.json]`
 func probe() {
 	switch os.Args[2] {
 	case "graph":
@@ -19,6 +20,13 @@ func probe() {
 		os.WriteFile(os.Args[4], graphPDF(c), 0644)
 		if len(os.Args) > 5 {
 			fmt.Println("validate:", api.ValidateFile(os.Args[4], nil))
+		}
+	case "form":
+		fmt.Println("create:", api.CreateFile("", os.Args[3], os.Args[4], nil))
+		fmt.Println("export:", api.ExportFormFile(os.Args[4], os.Args[5], nil))
+		if len(os.Args) > 6 {
+			fmt.Println("fill:", api.FillFormFile(os.Args[4], os.Args[6], os.Args[7], nil))
+			fmt.Println("export2:", api.ExportFormFile(os.Args[7], os.Args[8], nil))
 		}
 	}
 }
